@@ -8,7 +8,9 @@ RIS, BEL, BS, DEL, NUL and their 8-bit C1 forms U+009B/U+009D/U+0090/U+0085, plu
 never uses).  The oracle is a plain scan of the text written: after removing -- in styled mode only -- the exact SGR
 sequences the dumper itself can emit (``ESC [ n m`` with n in {0,1,2,5,25,31..35,94}), no code point of Unicode
 category Cc other than TAB/LF/CR may remain.  DNS flows are unpacked from wire bytes built by the private reference
-encoder (vf/ref/c50_dns.py), so their names/records are values the real parser produces from traffic.
+encoder (vf/ref/c50_dns.py), so their names/records are values the real parser produces from traffic.  An end-to-end leg feeds
+hostile HTTP/1 request and response heads (control bytes in every start-line token, incl. the version token, and in header
+names/values) through the real parser (net.http.http1.read) and prints the resulting flows / protocol-error flows.
 """
 import io
 import re
@@ -36,7 +38,7 @@ ENGINE = "direct"
 TECHNIQUE = "output-stream scan of the real Dumper addon under hostile flows"
 BUDGET = {"quick": (2000, 13), "thorough": (120_000, 200)}
 WORKERS = {"quick": 2, "thorough": 16}
-REQUIRED = ["no_control_chars", "fields_rendered"]
+REQUIRED = ["no_control_chars", "fields_rendered", "wire_flows"]
 RULE = (
     "case = (flow type, dumper hook, set of attacker fields carrying a payload, flow_detail 1-4, showhost, styled on/off, "
     "default content view, body structure); payload = benign text + >=1 C0/ESC/DEL attack sequence (+ >=1 C1 sequence where "
@@ -47,7 +49,8 @@ RULE = (
 ASSUMPTIONS = [
     "control character = Unicode general category Cc (C0, DEL, C1) other than TAB/LF/CR",
     "styling added by mitmdump itself = SGR sequences ESC[<n>m with n in {0,1,2,5,25,31,32,33,34,35,94} (all that miniclick.style can emit for the dumper's style calls); attack payloads never use these",
-    "HTTP version strings and the client peer address are not attacker-controlled (validated by the HTTP parsers / supplied by the OS) and are left benign",
+    "the client peer address is supplied by the OS socket layer and is left benign; every other string the dumper prints (incl. http_version of request and response) is poisoned in hand-built flows",
+    "end-to-end leg: hostile HTTP/1 request/response heads are parsed by the real net.http.http1.read functions; accepted heads become the flow, a rejected response head becomes the 'HTTP/1 protocol error: ...' error flow, a rejected request head yields no flow (counted as parser_rejected_input)",
     "flows other than DNS are populated at the flow-model level (the values a parser would store), DNS flows come from DNSMessage.unpack of generated wire bytes",
 ]
 LEVEL_TEXT = (
@@ -71,6 +74,10 @@ FIELDS = {
     "sb": "resp-body", "st": "resp-trailer", "er": "error-msg", "wm": "ws-message", "wr": "ws-close-reason",
     "sa": "server-address-host", "pm": "tcp-udp-message", "dq": "dns-question-name", "dt": "dns-answer-txt",
     "dn": "dns-answer-target-name", "dh": "dns-answer-https", "do": "dns-answer-other", "da": "dns-answer-owner-name",
+    "qh": "req-http-version", "sh": "resp-http-version",
+    # end-to-end leg: tokens of hostile HTTP/1 heads that went through the real parser (net.http.http1.read)
+    "xm": "wire-method", "xp": "wire-target", "xv": "wire-req-version", "xn": "wire-req-header-name", "xu": "wire-req-header-value",
+    "yv": "wire-resp-version", "yr": "wire-reason", "yn": "wire-resp-header-name", "yu": "wire-resp-header-value", "ye": "wire-parse-error",
 }
 
 
@@ -199,6 +206,8 @@ def poison_http(r, f, fields):
             rq.headers["content-type"] = ct
         rq.headers["content-length"] = str(len(body))
         info["qb"] = kind
+    if "qh" in fields:
+        rq.data.http_version = r.choice([b"HTTP/1.1", b"HTTP/2.0", b""]) + pbytes(r, "qh")
     if "qt" in fields:
         rq.trailers = http.Headers([(b"x-trailer", pbytes(r, "qt")), (pbytes(r, "qt"), b"1")])
     rs = f.response
@@ -216,6 +225,8 @@ def poison_http(r, f, fields):
                 rs.headers["content-type"] = ct
             rs.headers["content-length"] = str(len(body))
             info["sb"] = kind
+        if "sh" in fields:
+            rs.data.http_version = r.choice([b"HTTP/1.1", b"HTTP/2.0", b""]) + pbytes(r, "sh")
         if "st" in fields:
             rs.trailers = http.Headers([(b"x-trailer", pbytes(r, "st"))])
     if "er" in fields:
@@ -229,15 +240,15 @@ def build_http(r):
     hook = r.choice(["response", "response", "error", "http_connect_error"])
     if hook == "response":
         f = tflow.tflow(resp=True)
-        cands = ["me", "pa", "ho", "hh", "qn", "qv", "qb", "qt", "rr", "sn", "sv", "sb", "st"]
+        cands = ["me", "pa", "ho", "hh", "qn", "qv", "qb", "qt", "rr", "sn", "sv", "sb", "st", "qh", "sh"]
     elif hook == "error":
         f = tflow.tflow(resp=r.random() < 0.3, err=True)
-        cands = ["me", "pa", "ho", "hh", "qn", "qv", "qb", "er", "er"]
+        cands = ["me", "pa", "ho", "hh", "qn", "qv", "qb", "er", "er", "qh"]
     else:
         f = tflow.tflow(resp=True)
         f.request.data.method = b"CONNECT"
         f.response.status_code = r.choice([502, 407, 400, 418])
-        cands = ["pa", "ho", "hh", "qv", "rr", "sv", "sb"]
+        cands = ["pa", "ho", "hh", "qv", "rr", "sv", "sb", "qh", "sh"]
     fields = pick(r, cands)
     if r.random() < 0.2:
         v = r.choice([b"HTTP/2.0", b"HTTP/1.0", b"HTTP/3"])
@@ -350,7 +361,65 @@ def build_dns(r):
     return "dns", hook, f, fields, info
 
 
-BUILDERS = [build_http, build_http, build_http, build_ws, build_ws, build_proto, build_proto, build_dns, build_dns]
+def wtok(r, fid, spaces=False):
+    """payload bytes for one token of an HTTP/1 head: no CR/LF (line structure), no whitespace unless allowed."""
+    b_ = pbytes(r, fid).replace(b"\r", b"").replace(b"\n", b"")
+    if not spaces:
+        b_ = bytes(c for c in b_ if c not in b" \t\x0b\x0c\x1c\x1d\x1e\x1f\x85\xa0")
+    return b_
+
+
+def build_wire(r):
+    """End-to-end leg: hostile HTTP/1 request / response heads go through the real parser; whatever it accepts becomes the
+    flow the dumper prints, whatever it rejects becomes the protocol-error flow the HTTP layer would report."""
+    from mitmproxy.net.http.http1 import read as h1read
+
+    fields = set()
+
+    def maybe(fid, plain, p=0.35, **kw):
+        if r.random() < p:
+            fields.add(fid)
+            x = wtok(r, fid, **kw)
+            return r.choice([plain + x, x + plain, plain[:4] + x + plain[4:]]) if plain else x
+        return plain
+
+    method = maybe("xm", r.choice([b"GET", b"POST", b"OPTIONS"]))
+    target = r.choice([b"/", b"/path?q=1", b"http://example.com/a", b"http://example.com:8080/"]) + maybe("xp", b"")
+    version = maybe("xv", r.choice([b"HTTP/1.1", b"HTTP/1.1", b"HTTP/1.0"]), 0.45)
+    req_lines = [method + b" " + target + b" " + version, b"Host: example.com"]
+    for _ in range(r.randint(0, 3)):
+        req_lines.append(maybe("xn", r.choice([b"X-A", b"User-Agent"]), 0.3) + b": " + maybe("xu", b"v", 0.5, spaces=True))
+    resp_lines = [maybe("yv", r.choice([b"HTTP/1.1", b"HTTP/1.0"]), 0.45) + b" " + r.choice([b"200", b"404", b"418", b"999"]) + b" " + maybe("yr", b"OK", 0.5, spaces=True)]
+    for _ in range(r.randint(0, 3)):
+        resp_lines.append(maybe("yn", r.choice([b"Server", b"X-B"]), 0.3) + b": " + maybe("yu", b"v", 0.5, spaces=True))
+    resp_lines.append(b"Content-Length: 0")
+    f = tflow.tflow()
+    info = {"e2e": "ok"}
+    try:
+        req = h1read.read_request_head(req_lines)
+    except ValueError as e:
+        # the HTTP layer answers 400 and logs; no flow reaches the dumper
+        raise RuntimeError("request head rejected by the real parser") from e
+    req.data.content = b""
+    req.timestamp_end = 2.0
+    f.request = req
+    hook = "response"
+    try:
+        resp = h1read.read_response_head(resp_lines)
+        resp.data.content = b""
+        resp.timestamp_end = 4.0
+        f.response = resp
+    except ValueError as e:
+        # what mitmproxy.proxy.layers.http._http1 does with an unparsable response head
+        f.response = None
+        f.error = mflow.Error(f"HTTP/1 protocol error: {e}")
+        fields.add("ye")
+        hook = "error"
+        info["e2e"] = "resp-rejected"
+    return "wire", hook, f, fields, info
+
+
+BUILDERS = [build_wire, build_wire, build_http, build_http, build_http, build_ws, build_ws, build_proto, build_proto, build_dns, build_dns]
 
 
 def call_hook(d, kind, hook, f):
@@ -393,8 +462,8 @@ def run(ctx):
             r = ctx.rng
             try:
                 kind, hook, f, fields, info = r.choice(BUILDERS)(r)
-            except Exception as e:  # generator could not build (e.g. DNS name the real parser rejects): not a case
-                ctx.count("generator_rejected")
+            except Exception as e:  # generator could not build (DNS name / HTTP head the real parser rejects): not a case
+                ctx.count("parser_rejected_input")
                 ctx.case(("rejected", type(e).__name__), nontrivial=False)
                 continue
             detail = r.choice([1, 2, 3, 3, 4, 4])
@@ -417,6 +486,8 @@ def run(ctx):
                 ctx.seen("hook_exception_sites", f"{type(e).__name__}@{exc_site(e)}")
             out = d.outfp.getvalue()
             ctx.count("hook_calls")
+            if kind == "wire":
+                ctx.count("wire_flows")
             stripped, bad = scan(out, styled)
             ctx.count("no_control_chars")
             rendered = sorted({m.group(1).lower() for m in MARK.finditer(out)} & fields)
